@@ -183,8 +183,9 @@ func (s *SchemaValidator) Validate(data interface{}) *Result {
 	// Handle special case of json.Number data (number marshalled as string)
 	isnumber := s.Schema.Type.Contains(numberType) || s.Schema.Type.Contains(integerType)
 	if num, ok := data.(json.Number); ok && isnumber {
-		if s.Schema.Type.Contains(integerType) { // avoid lossy conversion
-			in, erri := num.Int64()
+		in, erri := num.Int64()
+		// avoid lossy conversion; a value which is not an integer is still a number when the schema allows both
+		if s.Schema.Type.Contains(integerType) && (erri == nil || !s.Schema.Type.Contains(numberType)) {
 			if erri != nil {
 				result.AddErrors(invalidTypeConversionMsg(s.Path, erri))
 				result.Inc()
